@@ -69,7 +69,13 @@ def c01_jobs(tier):
         for start, depth in (("0", 4), ("-5", 3), ("3", 3)):
             jobs.append(dict(name="seq-start%s-d%d" % (start, depth), harness="c01_events",
                              opts=dict(depth=depth, start=start), bound_min=0, bound_max=0, deadline=200))
+        # the same on an optimised build without sanitizers (what is shipped is -O3): arithmetic that a sanitizer
+        # stops at is observed there through its consequences
+        jobs.append(dict(name="seq-start0-d4-O3", harness="c01_events", cfg="rel3", opts=dict(depth=4, start="0"),
+                         bound_min=0, bound_max=0, deadline=200))
     else:
+        jobs.append(dict(name="seq-start0-d5-O3", harness="c01_events", cfg="rel3", opts=dict(depth=5, start="0"),
+                         bound_min=0, bound_max=0, deadline=3000))
         for start, depth in (("0", 5), ("-5", 4), ("3", 4)):
             jobs.append(dict(name="seq-start%s-d%d" % (start, depth), harness="c01_events",
                              opts=dict(depth=depth, start=start), bound_min=0, bound_max=0, deadline=3000))
@@ -255,6 +261,10 @@ def c04_jobs(tier):
     jobs.append(des("condition-timer-p3", "notif", b, dl, procs=3, prios="1,0,0", budget=3, cond=1,
                     ops="hold0,hold1,tadd1,tadd1u,tadd2u,cwait0,cwait1,csig,setx1,setx2,int1,exit",
                     script0="hold1,setx1,csig", script1="tadd1u,cwait0,hold1", script2="tadd1,cwait0,hold1"))
+    # waiters with a timer due later that are thrown out of the queue by cancel / remove: the timers stay armed
+    jobs.append(des("condition-cancel-p3", "notif", b, dl, procs=3, prios="1,0,0", budget=3, cond=1, res=1,
+                    ops="hold0,hold1,hold2,tadd1,tadd2,tadd2u,cwait0,cwait1,csig,setx1,ccancel1,ccancel2,cremove1,int1,exit",
+                    script0="hold1,ccancel1,ccancel2", script1="tadd2u,cwait0,hold2", script2="tadd2,cwait1,hold2"))
     # several processes waiting for the same event, which is cancelled / executes / is rescheduled by a third
     jobs.append(des("event-waiters-p3", "notif", b, dl, procs=3, prios="0,0,1", budget=3,
                     ops="hold0,hold1,tadd1,evsched1,evsched2,waite0,waite1,evcancel0,evcancel1,int1,int2,stop1,exit",
@@ -331,9 +341,15 @@ def c06_jobs(tier):
         # first, last or middle waiter: service order by priority, then arrival
         dict(name="waiters-7-17", harness="c10_ramps", opts=dict(mode="guardq", prop="c06"), bound_min=0, bound_max=0,
              deadline=300, crash_is_violation=True, recycle=200, run_timeout=60),
+        # every priority assignment to 6 (7) waiters x every leaver x {cancel, timeout} x two late arrivals: service order
+        dict(name="guardorder-6", harness="c10_ramps", opts=dict(mode="guardorder", prop="c06", n=6), bound_min=0, bound_max=0,
+             deadline=600, crash_is_violation=True, recycle=2000, run_timeout=60),
         des("ramp9", "order", 1, dl, procs=6, prios="0,1,2,1,0,2", budget=2, res=1,
             ops="racq0,rrel0,hold1,hold2,prio0.2,prio4.1", script="racq0,hold1"),
     ]
+    if tier != "quick":
+        jobs.append(dict(name="guardorder-8", harness="c10_ramps", opts=dict(mode="guardorder", prop="c06", n=8), bound_min=0,
+                         bound_max=0, deadline=2400, crash_is_violation=True, recycle=2000, run_timeout=60))
     return jobs
 
 
@@ -691,7 +707,7 @@ def c10_jobs(tier):
                  subscribe="res", ops=UNION_OPS, script0="racq0,hold1,rrel0", script1="pacq2,hold1,prel1",
                  script2="tadd1,bget2,hold1", fptrap=1), crash_is_violation=True),
         ramp("evwait"), ramp("procwait"), ramp("guardq"), ramp("holders"), ramp("timers", 600), ramp("oqueue", 600),
-        ramp("observers", 600), ramp("closing"),
+        ramp("observers", 600), ramp("closing"), ramp("restart"),
         dict(ramp("closing"), name="ramp-closing-fptrap", opts=dict(mode="closing", fptrap=1)),
     ]
     return jobs
